@@ -738,6 +738,11 @@ def judge_crash(chk, script, rec, tokens_by_msgshape):
         bad.append(("opens", "*", "the restarted process died during the audit: %s" % r2.get("stderr", "")[-200:]))
         return bad
     obs = r2["obs"]
+    if any(o.get("how") == "timeout" for o in obs):
+        # a reply that did not arrive within the harness timeout (loaded machine) is not evidence
+        chk.cov["audit_timeouts"] = chk.cov.get("audit_timeouts", 0) + 1
+        chk.notes.append("audit of crash point K=%d: a reply timed out (harness); protocol part of the audit skipped" % rec["K"])
+        return bad
     for u in wl_users:
         st = by_user.get(u) or {}
         lg = obs[idx[(u, "login")]].get("recv", "")
